@@ -15,8 +15,15 @@ import Mathlib.Algebra.Order.Ring.Nat
 import Mathlib.Tactic.Ring
 import Mathlib.Tactic.FieldSimp
 import Mathlib.Tactic.Linarith
+import Mathlib.Tactic.IntervalCases
+import Mathlib.Algebra.Order.Field.Rat
+import Mathlib.Algebra.Group.Units.Equiv
+import Mathlib.Algebra.Group.Fin.Basic
+import Mathlib.Algebra.BigOperators.Group.Finset.Defs
+import Mathlib.Algebra.BigOperators.Fin
 
 set_option linter.unusedSectionVars false
+set_option linter.unusedVariables false
 
 namespace PygyroVerif.Interp
 open PygyroVerif.BSpline PygyroVerif.CubicUniform Finset
@@ -202,5 +209,466 @@ theorem levels_sum (left right : ℕ → K) (p : ℕ)
     · intro i _ hi
       rw [levels_length] at hi
       exact h p i (by omega) (by omega)
+
+/-! ### storing the solution and the periodic wrap -/
+
+theorem wrap_consistent' (n p : ℕ) (hpn : p ≤ n) (sol c0 : ℕ → K) :
+    let c := computeInterpolant1D true n p sol c0
+    (∀ i, i < p → c (n + i) = c i) ∧ (∀ k, k < n → c k = sol k) ∧ (∀ k, n + p ≤ k → c k = c0 k) ∧
+    (∀ k, k < n + p → c k = sol (k % n)) := by
+  intro c
+  have hc : ∀ k, c k = if n ≤ k ∧ k < n + p then (if k - n < n then sol (k - n) else c0 (k - n))
+      else (if k < n then sol k else c0 k) := by
+    intro k; simp [c, computeInterpolant1D, wrapCoeffs, storeSolution]
+  have hlow : ∀ k, k < n → c k = sol k := by
+    intro k hk
+    rw [hc, if_neg (by omega), if_pos hk]
+  have hwrap : ∀ i, i < p → c (n + i) = c i := by
+    intro i hi
+    rw [hlow i (by omega), hc, if_pos (by omega)]
+    have : n + i - n = i := by omega
+    rw [this, if_pos (by omega)]
+  refine ⟨hwrap, hlow, ?_, ?_⟩
+  · intro k hk
+    rw [hc, if_neg (by omega), if_neg (by omega)]
+  · intro k hk
+    have hW : Wrapped true n p c := fun _ i hi => hwrap i hi
+    rw [wrapped_read true n p c hW rfl hpn k hk]
+    by_cases hn : n = 0
+    · omega
+    · exact hlow _ (Nat.mod_lt _ (by omega))
+
+theorem computeInterpolant1D_spec' (periodic : Bool) (n p : ℕ) (hpn : periodic = true → p ≤ n) (sol c0 : ℕ → K) :
+    Wrapped periodic n p (computeInterpolant1D periodic n p sol c0) ∧
+    ∀ k, k < n → computeInterpolant1D periodic n p sol c0 k = sol k := by
+  cases periodic with
+  | true =>
+    have h := wrap_consistent' n p (hpn rfl) sol c0
+    exact ⟨fun _ i hi => h.1 i hi, h.2.1⟩
+  | false =>
+    refine ⟨fun h => Bool.noConfusion h, fun k hk => ?_⟩
+    simp [computeInterpolant1D, storeSolution, hk]
+
+/-! ### 1-D evaluation = collocation row · coefficients -/
+
+theorem space_bounds (S : Space K) (hadm : S.Admissible) (span : ℕ)
+    (hs : S.degree ≤ span ∧ span + S.degree + 2 ≤ S.nk) :
+    0 < S.nbasis ∧ (S.periodic = false → span < S.nbasis) ∧
+    (S.periodic = true → S.degree ≤ S.nbasis ∧ span < S.nbasis + S.degree) := by
+  obtain ⟨_, hnk, hper⟩ := hadm
+  unfold Space.nbasis
+  unfold Space.ncells at *
+  cases hp : S.periodic with
+  | true => have := hper hp; simp; omega
+  | false => simp; omega
+
+theorem eval_eq_collocRow' (S : Space K) (hadm : S.Admissible) (x : K) (row : ℕ → K)
+    (hrow : collocRow S x = some row) (c : ℕ → K) (hw : Wrapped S.periodic S.nbasis S.degree c) :
+    evalSpline1D S.t S.nk S.degree c x false = some (∑ j ∈ range S.nbasis, row j * c j) := by
+  unfold collocRow at hrow
+  unfold evalSpline1D
+  cases hfs : findSpan S.t S.nk S.degree x with
+  | none => rw [hfs] at hrow; simp at hrow
+  | some span =>
+    rw [hfs] at hrow
+    simp only [Option.map_some, Option.some.injEq] at hrow ⊢
+    subst hrow
+    have hb := findSpan_bounds S.t S.nk S.degree x span hadm.2.1 hfs
+    obtain ⟨h0, hcl, hpe⟩ := space_bounds S hadm span hb
+    simp only [basisOrDer, Bool.false_eq_true, if_false]
+    exact dotFrom_eq_rowOf S.periodic S.nbasis S.degree span _ c (basisFuns_length _ _ _ _) hb.1 h0 hcl hpe hw
+
+/-! ### 2-D -/
+
+theorem interpolate2D_apply (per1 : Bool) (n1 p1 : ℕ) (per2 : Bool) (n2 p2 : ℕ) (sol2 sol1 w0 : ℕ → ℕ → K) (k1 k2 : ℕ) :
+    interpolate2D per1 n1 p1 per2 n2 p2 sol2 sol1 w0 k1 k2 =
+      wrapRows per1 n1 p1 (transpose (wrapRows per2 n2 p2
+        (sweepSecond per1 n1 p1 n2 sol1 (transpose (sweepFirst n1 per2 n2 p2 sol2 w0))))) k1 k2 := rfl
+
+theorem wrapRows_low (per : Bool) (n p : ℕ) (a : ℕ → ℕ → K) (r c : ℕ) (h : r < n) : wrapRows per n p a r c = a r c := by
+  unfold wrapRows; rw [if_neg (by omega)]
+
+theorem wrapRows_wrap (per : Bool) (n p : ℕ) (a : ℕ → ℕ → K) (hper : per = true) (hpn : p ≤ n) (i c : ℕ) (hi : i < p) :
+    wrapRows per n p a (n + i) c = wrapRows per n p a i c := by
+  rw [wrapRows_low per n p a i c (by omega)]
+  unfold wrapRows
+  rw [if_pos ⟨hper, by omega, by omega⟩]
+  have : n + i - n = i := by omega
+  rw [this]
+
+theorem interpolate2D_inner (per1 : Bool) (n1 p1 : ℕ) (per2 : Bool) (n2 p2 : ℕ) (sol2 sol1 w0 : ℕ → ℕ → K)
+    (hp1 : per1 = true → p1 ≤ n1) (j1 j2 : ℕ) (h1 : j1 < n1) (h2 : j2 < n2) :
+    interpolate2D per1 n1 p1 per2 n2 p2 sol2 sol1 w0 j1 j2 = sol1 j2 j1 := by
+  rw [interpolate2D_apply, wrapRows_low _ _ _ _ _ _ h1]
+  unfold transpose
+  rw [wrapRows_low _ _ _ _ _ _ h2]
+  unfold sweepSecond
+  rw [if_pos h2]
+  exact (computeInterpolant1D_spec' per1 n1 p1 hp1 (sol1 j2) _).2 j1 h1
+
+theorem interp_reproduces_2d'' (per1 : Bool) (n1 p1 : ℕ) (per2 : Bool) (n2 p2 : ℕ) (M1 M2 : ℕ → ℕ → K)
+    (U sol2 sol1 : ℕ → ℕ → K) (W : ℕ → ℕ → K)
+    (hW : ∀ j1, j1 < n1 → ∀ j2, j2 < n2 → W j1 j2 = sol1 j2 j1)
+    (h2 : ∀ i1, i1 < n1 → ∀ i2, i2 < n2 → matVec M2 n2 (sol2 i1) i2 = U i1 i2)
+    (h1 : ∀ i2, i2 < n2 → ∀ i1, i1 < n1 → matVec M1 n1 (sol1 i2) i1 = sweep1Data sol2 i2 i1) :
+    ∀ i1, i1 < n1 → ∀ i2, i2 < n2 →
+      ∑ j1 ∈ range n1, ∑ j2 ∈ range n2, M1 i1 j1 * W j1 j2 * M2 i2 j2 = U i1 i2 := by
+  intro i1 hi1 i2 hi2
+  rw [sum_comm]
+  rw [← h2 i1 hi1 i2 hi2]
+  unfold matVec
+  apply sum_congr rfl
+  intro j2 hj2
+  have := h1 j2 (mem_range.mp hj2) i1 hi1
+  unfold sweep1Data matVec at this
+  rw [← this, mul_sum]
+  apply sum_congr rfl
+  intro j1 hj1
+  rw [hW j1 (mem_range.mp hj1) j2 (mem_range.mp hj2)]
+  ring
+
+/-- wraps of the array the two sweeps leave behind -/
+theorem interpolate2D_wrapped (per1 : Bool) (n1 p1 : ℕ) (per2 : Bool) (n2 p2 : ℕ) (sol2 sol1 w0 : ℕ → ℕ → K)
+    (hp1 : per1 = true → p1 ≤ n1) (hp2 : per2 = true → p2 ≤ n2) :
+    let W := interpolate2D per1 n1 p1 per2 n2 p2 sol2 sol1 w0
+    (per1 = true → ∀ i, i < p1 → ∀ k2, W (n1 + i) k2 = W i k2) ∧
+    (per2 = true → ∀ k1, ∀ i, i < p2 → W k1 (n2 + i) = W k1 i) := by
+  intro W
+  constructor
+  · intro h1 i hi k2
+    simp only [W, interpolate2D_apply]
+    exact wrapRows_wrap per1 n1 p1 _ h1 (hp1 h1) i k2 hi
+  · intro h2 k1 i hi
+    simp only [W, interpolate2D_apply]
+    -- whichever row of the transposed array the outer wrap reads, the inner wrap makes columns n2+i and i agree
+    have key : ∀ r, transpose (wrapRows per2 n2 p2
+        (sweepSecond per1 n1 p1 n2 sol1 (transpose (sweepFirst n1 per2 n2 p2 sol2 w0)))) r (n2 + i)
+        = transpose (wrapRows per2 n2 p2
+        (sweepSecond per1 n1 p1 n2 sol1 (transpose (sweepFirst n1 per2 n2 p2 sol2 w0)))) r i := by
+      intro r
+      unfold transpose
+      exact wrapRows_wrap per2 n2 p2 _ h2 (hp2 h2) i r hi
+    unfold wrapRows
+    split_ifs
+    · exact key _
+    · exact key _
+
+theorem evalSpline2D_eq_dotFrom (t1 : ℕ → K) (nk1 deg1 : ℕ) (t2 : ℕ → K) (nk2 deg2 : ℕ) (c : ℕ → ℕ → K)
+    (x y : K) (s1 s2 : ℕ) (hs1 : findSpan t1 nk1 deg1 x = some s1) (hs2 : findSpan t2 nk2 deg2 y = some s2) :
+    evalSpline2D t1 nk1 deg1 t2 nk2 deg2 c x y false false =
+      some (dotFrom (fun k1 => dotFrom (c k1) (s2 - deg2) (basisFuns t2 deg2 y s2)) (s1 - deg1) (basisFuns t1 deg1 x s1)) := by
+  unfold evalSpline2D
+  rw [hs1, hs2]
+  simp only [basisOrDer, Bool.false_eq_true, if_false]
+  rfl
+
+theorem interp_reproduces_2d_eval' (S1 S2 : Space K) (h1adm : S1.Admissible) (h2adm : S2.Admissible)
+    (x1 x2 : ℕ → K) (M1 M2 : ℕ → ℕ → K)
+    (hM1 : ∀ i, i < S1.nbasis → collocationMatrix S1 x1 i = some (M1 i))
+    (hM2 : ∀ i, i < S2.nbasis → collocationMatrix S2 x2 i = some (M2 i))
+    (U sol2 sol1 w0 : ℕ → ℕ → K)
+    (h2 : ∀ i1, i1 < S1.nbasis → ∀ i2, i2 < S2.nbasis → matVec M2 S2.nbasis (sol2 i1) i2 = U i1 i2)
+    (h1 : ∀ i2, i2 < S2.nbasis → ∀ i1, i1 < S1.nbasis → matVec M1 S1.nbasis (sol1 i2) i1 = sweep1Data sol2 i2 i1) :
+    ∀ i1, i1 < S1.nbasis → ∀ i2, i2 < S2.nbasis →
+      evalSpline2D S1.t S1.nk S1.degree S2.t S2.nk S2.degree
+        (interpolate2D S1.periodic S1.nbasis S1.degree S2.periodic S2.nbasis S2.degree sol2 sol1 w0)
+        (x1 i1) (x2 i2) false false = some (U i1 i2) := by
+  intro i1 hi1 i2 hi2
+  set W := interpolate2D S1.periodic S1.nbasis S1.degree S2.periodic S2.nbasis S2.degree sol2 sol1 w0 with hWdef
+  have hp1 : S1.periodic = true → S1.degree ≤ S1.nbasis := fun h => by
+    have := h1adm.2.2 h; simpa [Space.nbasis, h] using this
+  have hp2 : S2.periodic = true → S2.degree ≤ S2.nbasis := fun h => by
+    have := h2adm.2.2 h; simpa [Space.nbasis, h] using this
+  have hwr := interpolate2D_wrapped S1.periodic S1.nbasis S1.degree S2.periodic S2.nbasis S2.degree sol2 sol1 w0 hp1 hp2
+  -- spans
+  have hr1 := hM1 i1 hi1
+  have hr2 := hM2 i2 hi2
+  unfold collocationMatrix collocRow at hr1 hr2
+  cases hs1 : findSpan S1.t S1.nk S1.degree (x1 i1) with
+  | none => rw [hs1] at hr1; simp at hr1
+  | some s1 =>
+  cases hs2 : findSpan S2.t S2.nk S2.degree (x2 i2) with
+  | none => rw [hs2] at hr2; simp at hr2
+  | some s2 =>
+    rw [hs1] at hr1; rw [hs2] at hr2
+    simp only [Option.map_some, Option.some.injEq] at hr1 hr2
+    rw [evalSpline2D_eq_dotFrom _ _ _ _ _ _ _ _ _ s1 s2 hs1 hs2]
+    have hb1 := findSpan_bounds S1.t S1.nk S1.degree (x1 i1) s1 h1adm.2.1 hs1
+    have hb2 := findSpan_bounds S2.t S2.nk S2.degree (x2 i2) s2 h2adm.2.1 hs2
+    obtain ⟨h10, h1cl, h1pe⟩ := space_bounds S1 h1adm s1 hb1
+    obtain ⟨h20, h2cl, h2pe⟩ := space_bounds S2 h2adm s2 hb2
+    -- inner contraction for every row the outer loop reads
+    have hinner : ∀ s, s < (basisFuns S1.t S1.degree (x1 i1) s1).length →
+        (fun k1 => dotFrom (W k1) (s2 - S2.degree) (basisFuns S2.t S2.degree (x2 i2) s2)) (s1 - S1.degree + s)
+          = (fun k1 => ∑ j2 ∈ range S2.nbasis, M2 i2 j2 * W k1 j2) (s1 - S1.degree + s) := by
+      intro s hs
+      rw [basisFuns_length] at hs
+      simp only
+      rw [dotFrom_eq_rowOf S2.periodic S2.nbasis S2.degree s2 _ (W (s1 - S1.degree + s)) (basisFuns_length _ _ _ _)
+        hb2.1 h20 h2cl h2pe ?_, hr2]
+      intro hper i hi
+      exact hwr.2 hper _ i hi
+    rw [dotFrom_congr _ (fun k1 => ∑ j2 ∈ range S2.nbasis, M2 i2 j2 * W k1 j2) _ _ hinner]
+    rw [dotFrom_eq_rowOf S1.periodic S1.nbasis S1.degree s1 _ _ (basisFuns_length _ _ _ _) hb1.1 h10 h1cl h1pe ?_, hr1]
+    · congr 1
+      have hmat := interp_reproduces_2d'' S1.periodic S1.nbasis S1.degree S2.periodic S2.nbasis S2.degree M1 M2 U sol2 sol1 W
+        (fun j1 hj1 j2 hj2 => interpolate2D_inner _ _ _ _ _ _ sol2 sol1 w0 hp1 j1 j2 hj1 hj2) h2 h1 i1 hi1 i2 hi2
+      rw [← hmat]
+      apply sum_congr rfl
+      intro j1 _
+      rw [mul_sum]
+      apply sum_congr rfl
+      intro j2 _
+      ring
+    · intro hper i hi
+      simp only
+      apply sum_congr rfl
+      intro j2 _
+      exact congrArg (fun z => M2 i2 j2 * z) (hwr.1 hper i hi j2)
+
+/-! ### polynomial reproduction under unisolvence -/
+
+theorem poly_reproduction_partial' (S : Space K) (hadm : S.Admissible) (hper : S.periodic = false)
+    (xs : ℕ → K) (M : ℕ → ℕ → K)
+    (hM : ∀ i, i < S.nbasis → collocationMatrix S xs i = some (M i))
+    (hinj : ∀ v : ℕ → K, (∀ i, i < S.nbasis → matVec M S.nbasis v i = 0) → ∀ j, j < S.nbasis → v j = 0)
+    (q : K → K) (γ : ℕ → K) (dom : K → Prop)
+    (hγ : ∀ x, dom x → evalSpline1D S.t S.nk S.degree γ x false = some (q x))
+    (hxs : ∀ i, i < S.nbasis → dom (xs i))
+    (sol c0 : ℕ → K) (hsol : ∀ i, i < S.nbasis → matVec M S.nbasis sol i = q (xs i)) :
+    ∀ x, dom x →
+      evalSpline1D S.t S.nk S.degree (computeInterpolant1D false S.nbasis S.degree sol c0) x false = some (q x) := by
+  have hwγ : Wrapped S.periodic S.nbasis S.degree γ := fun h => by rw [hper] at h; cases h
+  -- M γ = q(x_i)
+  have hMγ : ∀ i, i < S.nbasis → matVec M S.nbasis γ i = q (xs i) := by
+    intro i hi
+    have h1 := eval_eq_collocRow' S hadm (xs i) (M i) (hM i hi) γ hwγ
+    rw [hγ (xs i) (hxs i hi)] at h1
+    simp only [Option.some.injEq] at h1
+    exact h1.symm
+  have heq : ∀ j, j < S.nbasis → sol j = γ j := by
+    intro j hj
+    have := hinj (fun k => sol k - γ k) (fun i hi => by
+      have a := hsol i hi
+      have b := hMγ i hi
+      unfold matVec at a b ⊢
+      simp only [mul_sub, sum_sub_distrib, a, b, sub_self]) j hj
+    simpa [sub_eq_zero] using this
+  intro x hx
+  rw [← hγ x hx]
+  unfold evalSpline1D
+  cases hfs : findSpan S.t S.nk S.degree x with
+  | none => rfl
+  | some span =>
+    simp only [Option.map_some, Option.some.injEq, basisOrDer, Bool.false_eq_true, if_false]
+    have hb := findSpan_bounds S.t S.nk S.degree x span hadm.2.1 hfs
+    obtain ⟨_, hcl, _⟩ := space_bounds S hadm span hb
+    apply dotFrom_congr
+    intro s hs
+    rw [basisFuns_length] at hs
+    have hlt : span - S.degree + s < S.nbasis := by have := hcl hper; omega
+    simp only [computeInterpolant1D, Bool.false_eq_true, if_false, storeSolution, hlt, if_true]
+    exact heq _ hlt
+
+
+/-! ### quadrature (C09) -/
+
+theorem quad_duality' (M : ℕ → ℕ → K) (n : ℕ) (w I c u : ℕ → K)
+    (hw : ∀ j, j < n → matTVec M n w j = I j)
+    (hc : ∀ i, i < n → matVec M n c i = u i) :
+    dot n w u = dot n I c := by
+  unfold dot matTVec matVec at *
+  calc ∑ i ∈ range n, w i * u i = ∑ i ∈ range n, w i * ∑ j ∈ range n, M i j * c j := by
+        apply sum_congr rfl; intro i hi; rw [hc i (mem_range.mp hi)]
+    _ = ∑ i ∈ range n, ∑ j ∈ range n, w i * (M i j * c j) := by
+        apply sum_congr rfl; intro i _; rw [mul_sum]
+    _ = ∑ j ∈ range n, ∑ i ∈ range n, w i * (M i j * c j) := sum_comm
+    _ = ∑ j ∈ range n, (∑ i ∈ range n, M i j * w i) * c j := by
+        apply sum_congr rfl; intro j _; rw [sum_mul]; apply sum_congr rfl; intro i _; ring
+    _ = ∑ j ∈ range n, I j * c j := by
+        apply sum_congr rfl; intro j hj; rw [hw j (mem_range.mp hj)]
+
+/-- `Σ_{j<n} [j<p] a_j = Σ_{j<p} a_j` for `p ≤ n` -/
+theorem sum_range_ite_lt (a : ℕ → K) (n p : ℕ) (hpn : p ≤ n) :
+    ∑ j ∈ range n, (if j < p then a j else 0) = ∑ j ∈ range p, a j := by
+  obtain ⟨m, rfl⟩ : ∃ m, n = p + m := ⟨n - p, by omega⟩
+  rw [sum_range_add]
+  have h1 : ∑ j ∈ range p, (if j < p then a j else 0) = ∑ j ∈ range p, a j :=
+    sum_congr rfl (fun j hj => by rw [if_pos (mem_range.mp hj)])
+  have h2 : ∑ x ∈ range m, (if p + x < p then a (p + x) else 0) = 0 :=
+    sum_eq_zero (fun j _ => by rw [if_neg (by omega)])
+  rw [h1, h2, add_zero]
+
+/-- the fold `basis_quads[:p] += integrals[n:]` is the adjoint of the wrap `c[n:n+p] = c[0:p]` -/
+theorem basisQuads_dot_eq (n p : ℕ) (hpn : p ≤ n) (I sol c0 : ℕ → K) :
+    dot n (basisQuads true n p I) sol = dot (n + p) I (computeInterpolant1D true n p sol c0) := by
+  have hc := wrap_consistent' n p hpn sol c0
+  simp only at hc
+  obtain ⟨hwrap, hlow, _, _⟩ := hc
+  unfold dot
+  rw [sum_range_add]
+  have e1 : ∑ x ∈ range n, I x * computeInterpolant1D true n p sol c0 x = ∑ x ∈ range n, I x * sol x :=
+    sum_congr rfl (fun j hj => by rw [hlow j (mem_range.mp hj)])
+  have e2 : ∑ x ∈ range p, I (n + x) * computeInterpolant1D true n p sol c0 (n + x) = ∑ x ∈ range p, I (n + x) * sol x :=
+    sum_congr rfl (fun j hj => by
+      have := mem_range.mp hj
+      rw [hwrap j this, hlow j (by omega)])
+  rw [e1, e2, ← sum_range_ite_lt (fun j => I (n + j) * sol j) n p hpn, ← sum_add_distrib]
+  apply sum_congr rfl
+  intro j _
+  unfold basisQuads
+  by_cases h : j < p
+  · simp [h]; ring
+  · simp [h]
+
+theorem weights_sum' (M : ℕ → ℕ → K) (n : ℕ) (w I : ℕ → K) (L : K)
+    (hw : ∀ j, j < n → matTVec M n w j = I j)
+    (hrow : ∀ i, i < n → ∑ j ∈ range n, M i j = 1)
+    (hI : ∑ j ∈ range n, I j = L) :
+    ∑ i ∈ range n, w i = L := by
+  have h := quad_duality' M n w I (fun _ => 1) (fun _ => 1) hw (fun i hi => by simp [matVec, hrow i hi])
+  simpa [dot, hI] using h
+
+/-- telescoping: `Σ_{i<n} (t_{i+d+1} - t_i) = Σ_{k≤d} (t_{n+k} - t_k)` -/
+theorem sum_knot_diffs (t : ℕ → K) (d n : ℕ) :
+    ∑ i ∈ range n, (t (i + d + 1) - t i) = ∑ k ∈ range (d + 1), (t (n + k) - t k) := by
+  induction n with
+  | zero => simp
+  | succ n ih =>
+    rw [sum_range_succ, ih]
+    have e1 : ∑ k ∈ range (d + 1), (t (n + 1 + k) - t k) = ∑ k ∈ range (d + 1), t (n + 1 + k) - ∑ k ∈ range (d + 1), t k :=
+      sum_sub_distrib _ _
+    have e2 : ∑ k ∈ range (d + 1), (t (n + k) - t k) = ∑ k ∈ range (d + 1), t (n + k) - ∑ k ∈ range (d + 1), t k :=
+      sum_sub_distrib _ _
+    rw [e1, e2, sum_range_succ (fun k => t (n + 1 + k)), sum_range_succ' (fun k => t (n + k))]
+    have e3 : ∑ k ∈ range d, t (n + 1 + k) = ∑ k ∈ range d, t (n + (k + 1)) :=
+      sum_congr rfl (fun k _ => by congr 1; omega)
+    rw [e3]
+    have e4 : n + 1 + d = n + d + 1 := by omega
+    rw [e4]
+    simp only [add_zero]
+    ring
+
+
+/-! ### circulant systems with a constant right-hand side have constant solutions -/
+
+theorem fin_val_succ (n : ℕ) [NeZero n] (i : Fin n) : (i + 1).val = (i.val + 1) % n := by
+  rw [Fin.val_add, Fin.val_one', Nat.add_mod_mod]
+
+theorem circulant_equal (n : ℕ) [NeZero n] (M : Fin n → Fin n → K) (w : Fin n → K) (Ic : K)
+    (hcirc : ∀ i j, M (i + 1) (j + 1) = M i j)
+    (hinj : ∀ v : Fin n → K, (∀ j, ∑ i, M i j * v i = 0) → ∀ i, v i = 0)
+    (hw : ∀ j, ∑ i, M i j * w i = Ic) :
+    ∀ i, w (i + 1) = w i := by
+  -- the shifted vector solves the same system
+  have hshift : ∀ j, ∑ i, M i j * w (i + 1) = Ic := by
+    intro j
+    have : ∑ i, M i j * w (i + 1) = ∑ i, M (i + 1) (j + 1) * w (i + 1) :=
+      Fintype.sum_congr _ _ (fun i => by rw [hcirc])
+    rw [this]
+    have := Equiv.sum_comp (Equiv.addRight (1 : Fin n)) (fun i => M i (j + 1) * w i)
+    simp only [Equiv.coe_addRight] at this
+    rw [this]
+    exact hw (j + 1)
+  have := hinj (fun i => w (i + 1) - w i) (fun j => by
+    simp only [mul_sub, Finset.sum_sub_distrib, hshift j, hw j, sub_self])
+  intro i
+  have := this i
+  simpa [sub_eq_zero] using this
+
+theorem circulant_equal_nat (n : ℕ) (hn : 0 < n) (M : ℕ → ℕ → K) (w : ℕ → K) (Ic : K)
+    (hcirc : ∀ i j, i < n → j < n → M ((i + 1) % n) ((j + 1) % n) = M i j)
+    (hinj : ∀ v : ℕ → K, (∀ j, j < n → matTVec M n v j = 0) → ∀ i, i < n → v i = 0)
+    (hw : ∀ j, j < n → matTVec M n w j = Ic) :
+    ∀ i, i < n → w i = w 0 := by
+  have : NeZero n := ⟨by omega⟩
+  have hsum : ∀ (f : ℕ → K), ∑ i : Fin n, f i.val = ∑ i ∈ range n, f i := fun f => Fin.sum_univ_eq_sum_range f n
+  have key := circulant_equal n (fun i j => M i.val j.val) (fun i => w i.val) Ic
+    (fun i j => by simp only [fin_val_succ]; exact hcirc _ _ i.isLt j.isLt)
+    (fun v hv i => by
+      have := hinj (fun k => if h : k < n then v ⟨k, h⟩ else 0) (fun j hj => by
+        refine Eq.trans ?_ (hv ⟨j, hj⟩)
+        unfold matTVec
+        rw [← hsum (fun i => M i j * (if h : i < n then v ⟨i, h⟩ else 0))]
+        apply Fintype.sum_congr
+        intro i
+        simp [i.isLt]) i.val i.isLt
+      simpa [i.isLt] using this)
+    (fun j => by
+      have := hw j.val j.isLt
+      unfold matTVec at this
+      rw [← this, ← hsum (fun i => M i j.val * w i)])
+  have step : ∀ i, i + 1 < n → w (i + 1) = w i := by
+    intro i hi
+    have := key ⟨i, by omega⟩
+    simp only [fin_val_succ] at this
+    rwa [Nat.mod_eq_of_lt hi] at this
+  intro i hi
+  induction i with
+  | zero => rfl
+  | succ i ih => rw [step i hi, ih (by omega)]
+
+/-! ### partition of unity of the collocation rows -/
+
+theorem basisFuns_sum_one [IsStrictOrderedRing K] (t : ℕ → K) (ht : Monotone t) (p span : ℕ) (x : K)
+    (hcell : t span < t (span + 1)) : (basisFuns t p x span).sum = 1 := by
+  unfold basisFuns
+  apply levels_sum
+  intro j i _ _
+  unfold rightOf leftOf
+  have h1 : t (span - (j - i)) ≤ t span := ht (by omega)
+  have h2 : t (span + 1) ≤ t (span + 1 + i) := ht (by omega)
+  have : 0 < t (span + 1 + i) - x + (x - t (span - (j - i))) := by linarith
+  exact ne_of_gt this
+
+theorem collocRow_sum_one [IsStrictOrderedRing K] (S : Space K) (hadm : S.Admissible) (ht : Monotone S.t)
+    (hcell : ∀ s, S.degree ≤ s → s + S.degree + 2 ≤ S.nk → S.t s < S.t (s + 1))
+    (x : K) (row : ℕ → K) (hrow : collocRow S x = some row) : ∑ j ∈ range S.nbasis, row j = 1 := by
+  unfold collocRow at hrow
+  cases hfs : findSpan S.t S.nk S.degree x with
+  | none => rw [hfs] at hrow; simp at hrow
+  | some span =>
+    rw [hfs] at hrow
+    simp only [Option.map_some, Option.some.injEq] at hrow
+    subst hrow
+    have hb := findSpan_bounds S.t S.nk S.degree x span hadm.2.1 hfs
+    obtain ⟨h0, hcl, hpe⟩ := space_bounds S hadm span hb
+    unfold rowOf
+    rw [sum_indicator S.nbasis (colIdx S.periodic S.nbasis S.degree span) _ (fun bs hbs => by
+      have := List.snd_lt_add_of_mem_zipIdx hbs
+      rw [basisFuns_length] at this
+      exact colIdx_lt S.periodic S.nbasis S.degree span bs.2 (by omega) hb.1 h0 hcl)]
+    rw [zipIdx_map_fst_sum]
+    exact basisFuns_sum_one S.t ht S.degree span x (hcell span hb.1 hb.2)
+
+/-! ### a concrete instance (non-vacuity of the C08/C09 hypotheses): degree 2, periodic, 3 uniform cells on [0,3] -/
+namespace Inst
+def S : Space ℚ := ⟨fun i => (i : ℚ) - 2, 8, 2, true⟩
+/-- the Greville points `BSplines.greville` computes for `S`: 1/2, 3/2, 5/2 -/
+def xs : ℕ → ℚ := fun i => (i : ℚ) + 1/2
+def M : ℕ → ℕ → ℚ := fun i => rowOf true 3 2 (i + 2) (basisFuns S.t 2 (xs i) (i + 2))
+def sol : ℕ → ℚ := fun j => (j : ℚ) + 1
+def u : ℕ → ℚ := fun i => if i = 0 then 2 else if i = 1 then 21/8 else 11/8
+
+theorem hadm : S.Admissible := ⟨by decide, by decide, fun _ => by decide⟩
+theorem hnb : S.nbasis = 3 := by decide
+theorem hM : ∀ i, i < S.nbasis → collocationMatrix S xs i = some (M i) := by
+  intro i hi
+  rw [hnb] at hi
+  have hspan : findSpan S.t S.nk S.degree (xs i) = some (i + 2) := by
+    interval_cases i <;> norm_num [findSpan, findSpanLoop, S, xs]
+  unfold collocationMatrix collocRow
+  rw [hspan]
+  rfl
+theorem hsol : ∀ i, i < S.nbasis → matVec M S.nbasis sol i = u i := by
+  intro i hi
+  rw [hnb] at hi ⊢
+  interval_cases i <;>
+    norm_num [matVec, M, sol, u, S, xs, sum_range_succ, rowOf, colIdx, basisFuns, levels, innerLoop, leftOf, rightOf]
+theorem hM_entries : M 0 0 = 1/8 ∧ M 0 1 = 3/4 ∧ M 0 2 = 1/8 ∧ M 1 0 = 1/8 ∧ M 1 1 = 1/8 ∧ M 1 2 = 3/4 ∧
+    M 2 0 = 3/4 ∧ M 2 1 = 1/8 ∧ M 2 2 = 1/8 := by
+  refine ⟨?_, ?_, ?_, ?_, ?_, ?_, ?_, ?_, ?_⟩ <;>
+    norm_num [M, S, xs, rowOf, colIdx, basisFuns, levels, innerLoop, leftOf, rightOf]
+end Inst
 
 end PygyroVerif.Interp
